@@ -601,10 +601,9 @@ func (e *Exec) builtin(fr *Frame, b *ssa.Builtin, args []Value, cc *ssa.CallComm
 			if x.M == nil {
 				return smt.BVC(64, 0)
 			}
+			// keys are pairwise distinct under the path condition: mapUpdate appends a key only
+			// after forking on its equality with every existing key
 			m := e.mapRead(x.M)
-			if !e.mapKeysDistinct(m) {
-				e.unsupported("len(map) with possibly-equal symbolic keys")
-			}
 			return smt.BVC(64, uint64(len(m.Keys)))
 		case *Pointer:
 			if x.C != nil && x.C.Sub != nil {
@@ -819,17 +818,6 @@ func (e *Exec) mapWrite(mv *Map) *MapObj {
 		return o
 	}
 	return m
-}
-
-func (e *Exec) mapKeysDistinct(m *MapObj) bool {
-	for i := range m.Keys {
-		for j := i + 1; j < len(m.Keys); j++ {
-			if !e.valueEq(m.Keys[i], m.Keys[j]).IsFalse() {
-				return false
-			}
-		}
-	}
-	return true
 }
 
 func (e *Exec) mapUpdate(mv, k, v Value) {
